@@ -13,7 +13,7 @@
 From Verif.Base Require Import Prelude HttpBase.
 From Verif.Model Require Import HttpSse HttpDispatch.
 From Verif.Spec Require Import C11.
-From Verif.Proofs Require Import HttpSse HttpDispatch.
+From Verif.Proofs Require Import HttpSse HttpDispatch C11Spec.
 Open Scope Z_scope.
 
 (** For ALL message lists (single-line JSON object texts) and ALL per-event
@@ -120,6 +120,24 @@ Theorem C11_session_latest :
     = Some (demanded_header init (map issued (firstn n l)), out).
 Proof. exact session_latest. Qed.
 Print Assumptions C11_session_latest.
+
+(** The boolean checkers the harness applies to the IMPLEMENTATION's observations
+    decide exactly the predicates used above. *)
+Theorem C11_terminal_checker_exact : forall (M : Type) (answers : jid -> M -> bool) rid out,
+  terminal_ok M answers rid out = true <-> Spec_terminal M answers rid out.
+Proof. exact terminal_ok_spec. Qed.
+Print Assumptions C11_terminal_checker_exact.
+
+Theorem C11_session_checker_exact : forall init hist sent,
+  session_ok init hist sent = true <-> sent = demanded_header init hist.
+Proof. exact session_ok_spec. Qed.
+Print Assumptions C11_session_checker_exact.
+
+(** "the most recent one": the last id issued in the history. *)
+Theorem C11_most_recent_is_last : forall pre s post,
+  Forall (fun x => x = None) post -> most_recent (pre ++ Some s :: post) = Some s.
+Proof. exact most_recent_last. Qed.
+Print Assumptions C11_most_recent_is_last.
 
 (** Non-vacuity: concrete, non-trivial values satisfy the hypotheses, and the
     theorems' left-hand sides compute to non-trivial results. *)
